@@ -20,7 +20,7 @@ META = {
                   "empty, invalid UTF-8, canonical and non-canonical versions, clean and unclean paths ('@' in any segment, major "
                   "suffixes of every length and digit pattern), all 16 layouts, many-requirement maps): written bytes and loaded "
                   "structure compared exactly; every path/version string with a function-level case is also inside a whole "
-                  "configuration under the direct round-trip oracle. Free-form fields: ~670 strings of the restricted fields' domains and of "
+                  "configuration under the direct round-trip oracle. Free-form fields: ~480 strings of the restricted fields' domains and of "
                   "plausible normalisers (semver grammar enumerated incl. build metadata and shorthands, near-versions, clean/unclean "
                   "paths, globs, padding, case, equivalent Unicode spellings, TOML-typed-looking text, key words, references) in every "
                   "position the quantifier leaves free (name, version, ignore, requirement name), ignore lists as sequences, pairs a "
